@@ -97,7 +97,17 @@ def check_value_independence(ctx):
     f1 = repo.func(SPLITTER + '._change_splitlevel')
     ctx.need(len(f1.params) == 3, '_change_splitlevel signature changed')
     f2, lp, (tv2, vv2) = RS.splitter_loop(ctx)
-    for f, tvar, vvar in ((f1, f1.params[1], f1.params[2]), (f2, tv2, vv2)):
+    todo = [(f1, f1.params[1], f1.params[2]), (f2, tv2, vv2)]
+    # private helpers of the splitter that receive (ttype, value) are analysed with their own parameter names
+    scls = repo.cls(SPLITTER)
+    for fn in (f1, f2):
+        for n in own_nodes(fn.node):
+            if isinstance(n, ast.Call) and is_attr(n.func, None, 'self') and n.func.attr in scls.methods and len(n.args) == 2 \
+                    and all(isinstance(a, ast.Name) for a in n.args):
+                h = scls.methods[n.func.attr]
+                if h not in [t[0] for t in todo] and len(h.params) == 3:
+                    todo.append((h, h.params[1], h.params[2]))
+    for f, tvar, vvar in todo:
         g = Guards(f.node)
         tainted = {vvar}
         # names derived from the value
@@ -120,7 +130,8 @@ def check_value_independence(ctx):
             key = f'{f.name}:read:{r.id}:{src(par) if par is not None else ""}'
             # allowed: argument of sql.Token(ttype, value) / of self._change_splitlevel(ttype, value)
             if isinstance(par, ast.Call) and r in par.args:
-                if RS.resolves_to_class(ctx, f, par.func, 'sqlparse.sql.Token') or is_attr(par.func, '_change_splitlevel', 'self'):
+                if RS.resolves_to_class(ctx, f, par.func, 'sqlparse.sql.Token') or (
+                        is_attr(par.func, None, 'self') and par.func.attr in scls.methods and any(t[0] is scls.methods[par.func.attr] for t in todo)):
                     ctx.ob('R5.2', key, loc, f'`{r.id}` is only stored/forwarded here', True)
                     continue
             ok = type_guarded(g.facts(r), tvar)
@@ -190,7 +201,28 @@ def check_trigger(ctx):
         if isinstance(s, ast.Assign) and any(is_attr(t, 'consume_ws', 'self') for t in s.targets) \
                 and isinstance(s.value, ast.Constant) and s.value.value is True:
             n += 1
-            facts = g.facts(s)
+            facts = list(g.facts(s))
+            # a guard that is a call of a one-expression private helper is inlined (parameters -> arguments)
+            cls_ = ctx.repo.cls(SPLITTER)
+            inl = []
+            for fa in facts:
+                done = False
+                if fa[0] != '|' and fa[1]:
+                    try:
+                        e = ast.parse(fa[0], mode='eval').body
+                    except SyntaxError:
+                        e = None
+                    if isinstance(e, ast.Call) and is_attr(e.func, None, 'self') and e.func.attr in cls_.methods:
+                        h = cls_.methods[e.func.attr]
+                        body = [b for b in h.node.body if not (isinstance(b, ast.Expr) and isinstance(b.value, ast.Constant))]
+                        if len(body) == 1 and isinstance(body[0], ast.Return) and body[0].value is not None:
+                            from ..astutil import subst
+                            env = {p_: a_ for p_, a_ in zip(h.params[1:], e.args)}
+                            inl += atoms(subst(body[0].value, env), True)
+                            done = True
+                if not done:
+                    inl.append(fa)
+            facts = inl
             extra = [x for x in facts if x[0] != '|' and x not in g.facts(lp)]
             alts = [x for x in facts if x[0] == '|']
             loc = f'{f.mod.relpath}:{s.lineno}'
